@@ -9,11 +9,14 @@ in 'w' mode and only written to, so its content is the concatenation, in executi
 `f.write(s)` -> the token lines of `s` (the STL writer, which also counts, is compiled to a state-passing fold).  String expressions are evaluated symbolically (literals, `+`,
 f-strings, `.format`, `str`, `' '.join`, string accumulators filled in a loop), cut into lines at "\\n" and into tokens at white space.
 
-READERS (`import_xyz`: the line loop; `parse_tet_data`: deque, header counts `int(get_line()[k])`, `for _ in range(n)` loops that pop,
-parse and append one record): compiled to `Option` functions over (deque of token lines, RawMeshData under construction); `none` = the
-Python raises or a vertex without three coordinates is stored (outside the modelled domain).  deque() / strip() / split() are the
-token-level glue.  `parse_off_data`, `parse_obj_data`, `import_medit`, the geogram codec are NOT compiled (hand models; for obj / medit
-their dispatch tables are translated by vlib/props/c04.py).
+READERS, compiled to `Option` functions over (deque of token lines, RawMeshData under construction); `none` = the Python raises or the
+input leaves the modelled domain (a vertex without three coordinates, a negative count, normals / texture data):
+  `import_xyz` (line loop), `parse_tet_data` and `parse_off_data` (deque, header token / counts, `for _ in range(n)` loops that pop one
+  record; for off the per-record if-chain on the arity, the `*_corners` bookkeeping being outside the token-level mesh),
+  `parse_vertex` (evaluated for a token without '/') + `parse_obj_data` (line loop with its branch bodies filling the mesh and the list
+  of face records, then the loop over the face records with its `tid` / `nid` guards).
+  deque() / strip() / split() / dropping blank lines are the token-level glue.  `import_medit` (its dispatch table is translated by
+  vlib/props/c04.py), `_import_stl_ascii` and the geogram codec are NOT compiled (hand models / oracle).
 
 Tolerated respellings (normalised away, the generated text does not change): renamed locals / parameters / file handles, operand order
 of `==`, `a > b` = `b < a`, `not a == b`, `x = x + e` = `x += e`, `'{}'.format(e)` = f'{e}' (and = `str(e)` for integers ONLY: str() of a numpy float32 coordinate is
@@ -1008,11 +1011,287 @@ def compile_tet_reader(tree):
     return "let d := file\n  let r : Raw C := Raw.empty\n  " + ("\n" + pad).join(lines)
 
 
+def compile_off_reader(tree):
+    """`parse_off_data` -> (Lean body of `offRecord`, Lean body of `parseOff`).
+    Domain notes: the token-level file already is `strip().split()` of the non-empty lines (the two glue statements); negative counts
+    are outside the domain (`readNat`); the `*_corners` bookkeeping and its counters are not part of the token-level mesh; the arity-2
+    branch compares TOKEN STRINGS with min/max: outside the modelled domain (`none`)."""
+    fn = T.find_def(tree, "parse_off_data")
+    if len(fn.args.args) != 1: raise TranslateError("parse_off_data: expected one parameter")
+    dq = fn.args.args[0].arg
+    body = norm_body(fn)
+    out = None
+    toks, nums, ints, counters = {}, {}, {}, set()
+    lines, cnt = [], {"l": 0, "n": 0, "h": 0}
+    record = None
+    W = r"[A-Za-z_]\w*"
+
+    def fresh(k):
+        cnt[k] += 1
+        return f"{k}{cnt[k]}"
+    range_args = {ast.unparse(s.iter.args[0]) for s in body if isinstance(s, ast.For) and isinstance(s.iter, ast.Call) and ast.unparse(s.iter.func) == "range" and len(s.iter.args) == 1}
+
+    def compile_record(loop):
+        """body of `for _ in range(nf)`: `rec = data.popleft(); k = int(rec[0]); if k == 3: … elif …`"""
+        b = loop.body
+        if not (len(b) == 3 and ast.unparse(b[0].value if isinstance(b[0], ast.Assign) else b[0]) == f"{dq}.popleft()" and isinstance(b[0].targets[0], ast.Name)):
+            raise TranslateError("parse_off_data: record loop does not start with `rec = data.popleft()`")
+        rec = b[0].targets[0].id
+        if not (isinstance(b[1], ast.Assign) and isinstance(b[1].targets[0], ast.Name) and ast.unparse(b[1].value) == f"int({rec}[0])"):
+            raise TranslateError("parse_off_data: arity is not read with `int(rec[0])`")
+        kv = b[1].targets[0].id
+        if not isinstance(b[2], ast.If): raise TranslateError("parse_off_data: record loop has no if-chain")
+
+        def branch(stmts, K):
+            cur, res = None, None
+            for st in stmts:
+                u = ast.unparse(st)
+                if isinstance(st, ast.Assign) and isinstance(st.targets[0], ast.Name) and isinstance(st.value, ast.ListComp):
+                    lc = st.value; g = lc.generators[0]
+                    if len(lc.generators) == 1 and not g.ifs and isinstance(g.target, ast.Name) and ast.unparse(lc.elt) == f"int({g.target.id})" \
+                            and isinstance(g.iter, ast.Subscript) and ast.unparse(g.iter.value) == rec and isinstance(g.iter.slice, ast.Slice) and g.iter.slice.step is None:
+                        ev = lambda e: None if e is None else eval(compile(ast.Expression(e), "<slice>", "eval"), {"__builtins__": {}}, {kv: K})
+                        try:
+                            lo, hi = ev(g.iter.slice.lower) or 0, ev(g.iter.slice.upper)
+                        except Exception:
+                            raise TranslateError(f"parse_off_data: slice bounds not recognised: `{u[:60]}`")
+                        cur = (st.targets[0].id, f"mapOpt readNat (slice {lo} {'none' if hi is None else '(some ' + str(hi) + ')'} l)")
+                        continue
+                if isinstance(st, ast.Expr) and isinstance(st.value, ast.Call) and isinstance(st.value.func, ast.Attribute) and st.value.func.attr == "append" \
+                        and isinstance(st.value.func.value, ast.Attribute) and ast.unparse(st.value.func.value.value) == out and len(st.value.args) == 1:
+                    cont = st.value.func.value.attr
+                    if cur and ast.unparse(st.value.args[0]) == cur[0] and cont in ("faces", "cells") and res is None:
+                        res = (cur[1], cont); continue
+                if isinstance(st, ast.AugAssign) and isinstance(st.target, ast.Attribute) and ast.unparse(st.target.value) == out and st.target.attr.endswith("_corners"):
+                    continue        # corner bookkeeping
+                if isinstance(st, ast.AugAssign) and isinstance(st.target, ast.Name) and st.target.id in counters: continue
+                raise TranslateError(f"parse_off_data: statement in the arity-{K} branch not recognised: `{u[:70]}`")
+            if res is None: raise TranslateError(f"parse_off_data: the arity-{K} branch stores nothing")
+            return (f"match {res[0]} with\n    | none => none\n    | some x => some {{ r with {res[1]} := r.{res[1]} ++ [x] }}")
+
+        def is_string_edge_branch(stmts):
+            return (len(stmts) == 2 and re.fullmatch(rf"({W}), ({W}) = \({rec}\[1\], {rec}\[2\]\)", ast.unparse(stmts[0])) is not None
+                    and re.fullmatch(rf"{out}\.edges\.append\(\(min\(({W}), ({W})\), max\(({W}), ({W})\)\)\)", ast.unparse(stmts[1])) is not None)
+
+        def chain(node):
+            t = node.test
+            if not (isinstance(t, ast.Compare) and len(t.ops) == 1 and isinstance(t.ops[0], ast.Eq) and ast.unparse(t.left) == kv
+                    and isinstance(t.comparators[0], ast.Constant) and isinstance(t.comparators[0].value, int)):
+                raise TranslateError(f"parse_off_data: branch test is not `{kv} == k`: `{ast.unparse(t)[:40]}`")
+            K = t.comparators[0].value
+            th = "none" if is_string_edge_branch(node.body) else branch(node.body, K)
+            if len(node.orelse) == 1 and isinstance(node.orelse[0], ast.If): el = chain(node.orelse[0])
+            elif not node.orelse: el = "some r"
+            else: raise TranslateError("parse_off_data: trailing else branch")
+            return f"if k == {K} then\n    {th}\n  else {el}"
+        return "match (tokAt l 0).bind readInt with\n  | none => none\n  | some k =>\n  " + chain(b[2])
+    for s in body:
+        u = ast.unparse(s)
+        if isinstance(s, ast.Assign) and len(s.targets) == 1:
+            t, v = s.targets[0], s.value
+            if isinstance(t, ast.Name) and ast.unparse(v) == "RawMeshData()": out = t.id; continue
+            if re.fullmatch(rf"{dq} = \[({W})\.strip\(\)\.split\(\) for \1 in {dq}\]", u) or re.fullmatch(rf"{dq} = deque\(\[({W}) for \1 in {dq} if \1\]\)", u):
+                continue        # token-level glue
+            if isinstance(t, ast.Name) and ast.unparse(v) == f"{dq}.popleft()[0]":
+                l, h = fresh("l"), fresh("h")
+                toks[t.id] = h
+                lines += ["match popLine d with", "| none => none", f"| some ({l}, d) =>", f"match tokAt {l} 0 with", "| none => none", f"| some {h} =>"]
+                continue
+            if isinstance(t, ast.Tuple) and all(isinstance(e, ast.Name) for e in t.elts) and isinstance(v, (ast.GeneratorExp, ast.ListComp)) and len(t.elts) == 3:
+                g = v.generators[0]
+                if len(v.generators) == 1 and not g.ifs and isinstance(g.target, ast.Name) and ast.unparse(v.elt) == f"int({g.target.id})" and ast.unparse(g.iter) == f"{dq}.popleft()":
+                    l = fresh("l")
+                    lines += ["match popLine d with", "| none => none", f"| some ({l}, d) =>", f"match three {l} with", "| none => none", "| some (t1, t2, t3) =>"]
+                    for e, tk in zip(t.elts, ("t1", "t2", "t3")):
+                        n = fresh("n")
+                        rd = "readNat" if e.id in range_args else "readInt"
+                        (nums if rd == "readNat" else ints)[e.id] = n
+                        lines += [f"match {rd} {tk} with", "| none => none", f"| some {n} =>"]
+                    continue
+            if isinstance(t, ast.Tuple) and isinstance(v, ast.Tuple) and all(isinstance(e, ast.Name) for e in t.elts) and all(ast.unparse(e) == "0" for e in v.elts):
+                counters |= {e.id for e in t.elts}; continue
+            if isinstance(t, ast.Name) and ast.unparse(v) == "0": counters.add(t.id); continue
+        if isinstance(s, ast.If) and not s.orelse and len(s.body) == 1 and isinstance(s.body[0], ast.Raise) and isinstance(s.test, ast.Compare) \
+                and len(s.test.ops) == 1 and isinstance(s.test.ops[0], ast.NotEq) and ast.unparse(s.test.left) in toks \
+                and isinstance(s.test.comparators[0], ast.Constant) and isinstance(s.test.comparators[0].value, str):
+            lines.append(f"if {toks[ast.unparse(s.test.left)]} != {_word(s.test.comparators[0].value)} then none else")
+            continue
+        if isinstance(s, ast.For) and not s.orelse and isinstance(s.iter, ast.Call) and ast.unparse(s.iter.func) == "range" and len(s.iter.args) == 1 \
+                and ast.unparse(s.iter.args[0]) in nums and isinstance(s.target, ast.Name) and s.target.id not in names_read(s.body):
+            n = nums[ast.unparse(s.iter.args[0])]
+            b = s.body
+            if len(b) == 2 and isinstance(b[0], ast.Assign) and isinstance(b[0].targets[0], ast.Name) and isinstance(b[0].value, ast.ListComp):
+                lc = b[0].value; g = lc.generators[0]; x = b[0].targets[0].id
+                if len(lc.generators) == 1 and not g.ifs and isinstance(g.target, ast.Name) and ast.unparse(lc.elt) == f"float({g.target.id})" \
+                        and ast.unparse(g.iter) == f"{dq}.popleft()" and ast.unparse(b[1]) in (f"{out}.vertices.append(Vec({x}))", f"{out}.vertices.append({x})"):
+                    lines += [f"match popEach (fun l => (mapOpt (readNum cd) l).bind vec3) (fun r x => {{ r with verts := r.verts ++ [x] }}) {n} (d, r) with",
+                              "| none => none", "| some (d, r) =>"]
+                    continue
+            if record is None:
+                record = compile_record(s)
+                lines += [f"match popFold offRecord {n} (d, r) with", "| none => none", "| some (d, r) =>"]
+                continue
+        if isinstance(s, ast.Return) and ast.unparse(s.value) == out and s is body[-1]:
+            lines.append("some r"); continue
+        raise TranslateError(f"parse_off_data: statement not recognised: `{u[:70]}`")
+    if out is None or record is None or not lines or lines[-1] != "some r": raise TranslateError("parse_off_data: mesh creation / record loop / return not found")
+    return record, "let d := file\n  let r : Raw C := Raw.empty\n  " + "\n  ".join(lines)
+
+
+def compile_obj_reader(tree):
+    """`parse_vertex` + `parse_obj_data` -> Lean bodies (parseVertex, objLine, objCorner).
+    Token level: a face token without '/' is ONE item after `split('/')`, so `parse_vertex` is evaluated with `len(vals) == 1`
+    (tokens with '/' are keywords at token level: `int()` of them raises = `none`).  Normals / texture coordinates are outside the
+    property: the `vn` / `vt` branches, and a corner whose `tid` / `nid` is not -1, leave the modelled domain (`none`); the
+    `normals` / `uv_coords` attributes and the face_corners bookkeeping are not part of the token-level mesh."""
+    # ---- parse_vertex under len(vals) == 1
+    pv = T.find_def(tree, "parse_vertex")
+    if len(pv.args.args) != 1: raise TranslateError("parse_vertex: expected one parameter")
+    a = pv.args.args[0].arg
+    b = norm_body(pv)
+    if not (len(b) == 5 and ast.unparse(b[0].value) == f"{a}.split('/')" and isinstance(b[0].targets[0], ast.Name) and isinstance(b[4], ast.Return)
+            and isinstance(b[4].value, ast.Tuple) and len(b[4].value.elts) == 3):
+        raise TranslateError("parse_vertex: expected `vals = vstr.split('/')`, three assignments and `return (vid, tid, nid)`")
+    vals = b[0].targets[0].id
+    comp = {}
+    for st in b[1:4]:
+        if not (isinstance(st, ast.Assign) and isinstance(st.targets[0], ast.Name)): raise TranslateError("parse_vertex: assignment expected")
+        v = st.value
+        if ast.unparse(v) == f"int({vals}[0]) - 1": comp[st.targets[0].id] = "vid"; continue
+        if isinstance(v, ast.IfExp):
+            # `int(vals[k]) - 1 if len(vals) > k [and vals[k]] else -1`: with len(vals) == 1 and k >= 1 the guard is false
+            els = ast.unparse(v.orelse)
+            test = Norm().visit(copy.deepcopy(v.test))
+            first = test.values[0] if isinstance(test, ast.BoolOp) and isinstance(test.op, ast.And) else test
+            m = re.fullmatch(rf"(\d+) < len\({vals}\)", ast.unparse(first))
+            if els == "-1" and m and int(m.group(1)) >= 1 and ast.unparse(v.body) == f"int({vals}[{m.group(1)}]) - 1":
+                comp[st.targets[0].id] = "-1"; continue
+        raise TranslateError(f"parse_vertex: `{ast.unparse(st)[:70]}` not recognised")
+    order = [comp.get(e.id) if isinstance(e, ast.Name) else None for e in b[4].value.elts]
+    if order != ["vid", "-1", "-1"]: raise TranslateError(f"parse_vertex: returns {order}, expected (vid, tid, nid)")
+    pv_txt = "match readIdx1 t with\n  | none => none\n  | some vid => some (vid, -1, -1)"
+    # ---- parse_obj_data
+    fn = T.find_def(tree, "parse_obj_data")
+    data = fn.args.args[0].arg
+    body = norm_body(fn)
+    out, side, faces_var = None, {}, None
+    i = 0
+    while i < len(body) and isinstance(body[i], ast.Assign) and isinstance(body[i].targets[0], ast.Name) and ast.unparse(body[i].value) in ("RawMeshData()", "[]"):
+        if ast.unparse(body[i].value) == "RawMeshData()": out = body[i].targets[0].id
+        else: side[body[i].targets[0].id] = None
+        i += 1
+    if out is None or i >= len(body) or not isinstance(body[i], ast.For) or ast.unparse(body[i].iter) != data or not isinstance(body[i].target, ast.Name):
+        raise TranslateError("parse_obj_data: `obj = RawMeshData()`, the side lists and `for line in data` not found")
+    loop1 = body[i]
+    line = loop1.target.id
+    lb = loop1.body
+    if not (len(lb) == 3 and ast.unparse(lb[0]) and isinstance(lb[0], ast.Assign) and ast.unparse(lb[0].value) in (f"{line}.split()", f"{line}.strip().split()")
+            and isinstance(lb[1], ast.If) and ast.unparse(lb[1].test) == f"not {lb[0].targets[0].id}" and len(lb[1].body) == 1 and isinstance(lb[1].body[0], ast.Continue)
+            and isinstance(lb[2], ast.If)):
+        raise TranslateError("parse_obj_data: loop body is not `toks = line.split(); if not toks: continue; if toks[0] == …`")
+    tk = lb[0].targets[0].id
+
+    def flt_list(e):
+        """Vec([float(v) for v in toks[a:b]]) -> lean Option (C × C × C)"""
+        if isinstance(e, ast.Call) and ast.unparse(e.func) == "Vec" and len(e.args) == 1: e = e.args[0]
+        if isinstance(e, ast.ListComp) and len(e.generators) == 1 and not e.generators[0].ifs and isinstance(e.generators[0].target, ast.Name):
+            g = e.generators[0]
+            if ast.unparse(e.elt) == f"float({g.target.id})" and isinstance(g.iter, ast.Subscript) and ast.unparse(g.iter.value) == tk and isinstance(g.iter.slice, ast.Slice) and g.iter.slice.step is None:
+                lo = 0 if g.iter.slice.lower is None else ast.literal_eval(g.iter.slice.lower)
+                hi = None if g.iter.slice.upper is None else ast.literal_eval(g.iter.slice.upper)
+                return f"(mapOpt (readNum cd) (slice {lo} {'none' if hi is None else '(some ' + str(hi) + ')'} l)).bind vec3"
+        raise TranslateError(f"parse_obj_data: vertex expression not recognised: `{ast.unparse(e)[:60]}`")
+
+    def branch(stmts, kw):
+        u = [ast.unparse(x) for x in stmts]
+        if len(stmts) == 1 and isinstance(stmts[0], ast.Expr) and isinstance(stmts[0].value, ast.Call) and isinstance(stmts[0].value.func, ast.Attribute) \
+                and stmts[0].value.func.attr == "append" and len(stmts[0].value.args) == 1:
+            tgt, arg = ast.unparse(stmts[0].value.func.value), stmts[0].value.args[0]
+            if tgt == f"{out}.vertices":
+                return f"match {flt_list(arg)} with\n    | none => none\n    | some x => some ({{ s.1 with verts := s.1.verts ++ [x] }}, s.2)"
+            if tgt in side:
+                if isinstance(arg, ast.ListComp) and len(arg.generators) == 1 and not arg.generators[0].ifs and isinstance(arg.generators[0].target, ast.Name):
+                    g = arg.generators[0]
+                    if ast.unparse(arg.elt) == f"parse_vertex({g.target.id})" and isinstance(g.iter, ast.Subscript) and ast.unparse(g.iter) == f"{tk}[1:]":
+                        side[tgt] = "faces"
+                        return "match mapOpt parseVertex (slice 1 none l) with\n    | none => none\n    | some x => some (s.1, s.2 ++ [x])"
+                if ast.unparse(arg).startswith("Vec([float("):
+                    side[tgt] = "attr"
+                    return "none"       # normals / texture coordinates: outside the property
+        if len(stmts) == 3:
+            m1 = re.fullmatch(rf"(\w+), (\w+) = \(int\({tk}\[1\]\) - 1, int\({tk}\[2\]\) - 1\)", u[0])
+            if m1:
+                m2 = re.fullmatch(rf"(\w+) = keyify\({m1.group(1)}, {m1.group(2)}\)", u[1])
+                if m2 and u[2] == f"{out}.edges.append({m2.group(1)})":
+                    return ("match (tokAt l 1).bind readIdx1 with\n    | none => none\n    | some i1 =>\n    match (tokAt l 2).bind readIdx1 with\n    | none => none\n    | some i2 =>\n"
+                            "    some ({ s.1 with edges := s.1.edges ++ [keyify (i1, i2)] }, s.2)")
+        raise TranslateError(f"parse_obj_data: branch `{kw}` not recognised: `{' ; '.join(u)[:80]}`")
+
+    def chain(node):
+        t = node.test
+        if not (isinstance(t, ast.Compare) and ast.unparse(t.left) == f"{tk}[0]" and len(t.ops) == 1 and isinstance(t.ops[0], ast.Eq)
+                and isinstance(t.comparators[0], ast.Constant) and isinstance(t.comparators[0].value, str)):
+            raise TranslateError("parse_obj_data: branch test is not `toks[0] == '…'`")
+        kw = t.comparators[0].value
+        th = branch(node.body, kw)
+        if len(node.orelse) == 1 and isinstance(node.orelse[0], ast.If): el = chain(node.orelse[0])
+        elif not node.orelse: el = "some s"
+        else: raise TranslateError("parse_obj_data: trailing else branch")
+        return f"if t0 == {_word(kw)} then\n    {th}\n  else {el}"
+    line_txt = "if l.isEmpty then some s else\n  match tokAt l 0 with\n  | none => none\n  | some t0 =>\n  " + chain(lb[2])
+    fl = [k for k, v in side.items() if v == "faces"]
+    if len(fl) != 1: raise TranslateError("parse_obj_data: the list collecting the `f` records was not found")
+    faces_var = fl[0]
+    # ---- second phase: attributes + `for iF, F in enumerate(faces)`
+    rest = body[i + 1:]
+    attrs, loop2, cnts = {}, None, set()
+    for st in rest:
+        u = ast.unparse(st)
+        m = re.fullmatch(rf"(\w+) = {out}\.(\w+)\.create_attribute\('(normals|uv_coords)', float, \d\)", u)
+        if m: attrs[m.group(1)] = m.group(3); continue
+        if isinstance(st, ast.Assign) and isinstance(st.targets[0], ast.Name) and ast.unparse(st.value) == "0": cnts.add(st.targets[0].id); continue
+        if isinstance(st, ast.For) and loop2 is None and ast.unparse(st.iter) == f"enumerate({faces_var})": loop2 = st; continue
+        if isinstance(st, ast.If) and re.fullmatch(r"(\w+)\.empty\(\)", ast.unparse(st.test)) and ast.unparse(st.test).split(".")[0] in attrs \
+                and len(st.body) == 1 and "delete_attribute" in ast.unparse(st.body[0]) and not st.orelse: continue
+        if isinstance(st, ast.Return) and ast.unparse(st.value) == out and st is body[-1]: continue
+        raise TranslateError(f"parse_obj_data: statement not recognised: `{u[:70]}`")
+    if loop2 is None or not (isinstance(loop2.target, ast.Tuple) and len(loop2.target.elts) == 2): raise TranslateError("parse_obj_data: `for iF, F in enumerate(faces)` not found")
+    iF, F = (e.id for e in loop2.target.elts)
+    b2 = loop2.body
+    if not (len(b2) == 4 and ast.unparse(b2[0]).endswith(" = []") and isinstance(b2[1], ast.For) and ast.unparse(b2[1].iter) == F):
+        raise TranslateError("parse_obj_data: face loop is not `face = []; for (vid, tid, nid) in F: …; obj.faces.append(face); corners`")
+    face = b2[0].targets[0].id
+    if ast.unparse(b2[2]) != f"{out}.faces.append({face})": raise TranslateError("parse_obj_data: `obj.faces.append(face)` not found")
+    if not (isinstance(b2[3], ast.AugAssign) and ast.unparse(b2[3].target) == f"{out}.face_corners"): raise TranslateError("parse_obj_data: corner bookkeeping not found")
+    tg = b2[1].target
+    if not (isinstance(tg, ast.Tuple) and len(tg.elts) == 3 and all(isinstance(e, ast.Name) for e in tg.elts)): raise TranslateError("parse_obj_data: corner pattern is not (vid, tid, nid)")
+    names = [e.id for e in tg.elts]
+    keep, guards = None, []
+    for st in b2[1].body:
+        u = ast.unparse(st)
+        if re.fullmatch(rf"{face}\.append\((\w+)\)", u):
+            keep = names.index(re.fullmatch(rf"{face}\.append\((\w+)\)", u).group(1)); continue
+        if isinstance(st, ast.If) and not st.orelse and len(st.body) == 1 and isinstance(st.body[0], ast.Assign) and isinstance(st.body[0].targets[0], ast.Subscript) \
+                and ast.unparse(st.body[0].targets[0].value) in attrs:
+            m = re.fullmatch(r"(\w+) != -1", ast.unparse(st.test))
+            if m and m.group(1) in names: guards.append(names.index(m.group(1))); continue
+        if isinstance(st, ast.AugAssign) and isinstance(st.target, ast.Name) and st.target.id in cnts: continue
+        raise TranslateError(f"parse_obj_data: statement in the corner loop not recognised: `{u[:70]}`")
+    if keep != 0 or sorted(guards) != [1, 2]: raise TranslateError(f"parse_obj_data: corner loop keeps component {keep} with guards on {guards}")
+    proj = ["c.1", "c.2.1", "c.2.2"]
+    corner_txt = " else ".join(f"if {proj[g]} != -1 then none" for g in guards) + f" else some {proj[keep]}"
+    return pv_txt, line_txt, corner_txt
+
+
 def readers():
     tree, _ = T.load("mouette/mesh/io/xyz.py")
     step = compile_xyz_reader(tree)
     tree, _ = T.load("mouette/mesh/io/tet.py")
     tet = compile_tet_reader(tree)
+    tree, _ = T.load("mouette/mesh/io/off.py")
+    offrec, off = compile_off_reader(tree)
+    tree, _ = T.load("mouette/mesh/io/obj.py")
+    objpv, objline, objcorner = compile_obj_reader(tree)
     txt = ("import Mouette.Model.IOSource\nnamespace Mouette.Generated.C04R\nopen Mouette.IO Mouette.IOS\nvariable {C : Type}\n\n"
            "/-- `xyz.py: import_xyz`: one iteration of `for v in f.readlines()` on the token line `l` -/\n"
            "def xyzStep (cd : Codec C) (r : Raw C) (l : Line) : Option (Raw C) :=\n  " + step + "\n\n"
@@ -1020,5 +1299,21 @@ def readers():
            "def importXyz (cd : Codec C) (file : File) : Option (Raw C) := foldOpt (xyzStep cd) Raw.empty file\n\n"
            "/-- `tet.py: parse_tet_data`: `d` is the deque of remaining lines, `r` the RawMeshData under construction -/\n"
            "def parseTet (cd : Codec C) (file : File) : Option (Raw C) :=\n  " + tet + "\n\n"
+           "/-- `off.py: parse_off_data`: one iteration of `for _ in range(nf)` on the popped record `l` -/\n"
+           "def offRecord (r : Raw C) (l : Line) : Option (Raw C) :=\n  " + offrec + "\n\n"
+           "/-- `off.py: parse_off_data` -/\n"
+           "def parseOff (cd : Codec C) (file : File) : Option (Raw C) :=\n  " + off + "\n\n"
+           "/-- `obj.py: parse_vertex` on a token without '/': (vid, tid, nid) -/\n"
+           "def parseVertex (t : Tok) : Option (Nat × Int × Int) :=\n  " + objpv + "\n\n"
+           "/-- `obj.py: parse_obj_data`: one iteration of `for line in data`; state = (mesh, the list `faces` of corner triples) -/\n"
+           "def objLine (cd : Codec C) (s : Raw C × List (List (Nat × Int × Int))) (l : Line) : Option (Raw C × List (List (Nat × Int × Int))) :=\n  " + objline + "\n\n"
+           "/-- … one corner of the second loop: `face.append(vid)`; a normal / texture index leaves the modelled domain -/\n"
+           "def objCorner (c : Nat × Int × Int) : Option Nat :=\n  " + objcorner + "\n\n"
+           "/-- `parse_obj_data`: the line loop, then `for iF, F in enumerate(faces)`: one face per record, in order -/\n"
+           "def parseObj (cd : Codec C) (file : File) : Option (Raw C) :=\n"
+           "  match foldOpt (objLine cd) (Raw.empty, []) file with\n  | none => none\n  | some (r, faces) =>\n"
+           "  match mapOpt (fun F => mapOpt objCorner F) faces with\n  | none => none\n  | some fs => some { r with faces := r.faces ++ fs }\n\n"
            "end Mouette.Generated.C04R\n")
-    return txt, {"import_xyz": {"assumed": ["the normals side list / attribute is outside the property"]}, "parse_tet_data": {"assumed": []}}
+    return txt, {"parse_obj_data": {"assumed": ["normals / texture coordinates outside the property (vn, vt, v/vt/vn corners -> outside the domain)",
+                                                 "face_corners bookkeeping outside the token-level mesh"]}, "parse_off_data": {"assumed": ["*_corners bookkeeping outside the token-level mesh", "negative counts outside the domain",
+                                                 "arity-2 branch (min/max of token strings) outside the domain"]}, "import_xyz": {"assumed": ["the normals side list / attribute is outside the property"]}, "parse_tet_data": {"assumed": []}}
